@@ -370,6 +370,69 @@ func (e *c08Env) listUnfriendly(repo string, r *tr.Rng) {
 		e.c.w.Op(fmt.Sprintf("listf r=%s kind=read-fault at=%d bs=%d apply=%v got=%s", tr.Esc(repo), g.FailReadAt, batch, q != 2, classify(got, err, "")), "sound")
 		e.c.w.Count("list-unfriendly=read-fault")
 	}
+	// an overwrite whose store write fails: the label still resolves to the bundle it had (a label set
+	// is one atomic store write: nothing in between)
+	if ranks := e.ofRepo[repo]; len(ranks) > 1 {
+		name := ref[r.Intn(len(ref))].Name
+		prev := want[name]
+		target := e.bundles[ranks[r.Intn(len(ranks))]]
+		for _, rk := range ranks {
+			if target == prev && e.bundles[rk] != prev {
+				target = e.bundles[rk]
+			}
+		}
+		g := &crashstore.Group{FailOnceOp: "put", FailOnceAt: 1}
+		st := corekit.WithStores(e.env.Wal, e.env.ReadLog, e.env.Blob, crashstore.Wrap(g, "meta", e.env.Meta), crashstore.Wrap(g, "vmeta", e.env.VMeta))
+		serr := corekit.Recover(func() error {
+			b := core.NewBundle(core.Repo(repo), core.ContextStores(st), core.BundleID(target), core.Logger(corekit.Nop))
+			l := core.NewLabel(core.LabelDescriptor(model.NewLabelDescriptor(
+				model.LabelName(name), model.LabelContributor(model.Contributor{Name: "verif", Email: "verif@example.com"}))))
+			return l.UploadDescriptor(context.Background(), b)
+		})
+		now := "lost"
+		gerr := corekit.Recover(func() error {
+			b := core.NewBundle(core.Repo(repo), core.ContextStores(e.env.Stores), core.Logger(corekit.Nop))
+			l := core.NewLabel(core.LabelDescriptor(model.NewLabelDescriptor(model.LabelName(name))))
+			if err := l.DownloadDescriptor(context.Background(), b, true); err != nil {
+				return err
+			}
+			switch l.Descriptor.BundleID {
+			case prev:
+				now = "kept"
+			case target:
+				now = "new"
+			default:
+				now = "other"
+			}
+			return nil
+		})
+		if gerr != nil {
+			now = "lost"
+		}
+		res := "ok"
+		if serr != nil {
+			res = "err"
+		}
+		// put things back as the model knows them
+		if serr == nil && prev != target {
+			_ = corekit.Recover(func() error {
+				b := core.NewBundle(core.Repo(repo), core.ContextStores(e.env.Stores), core.BundleID(prev), core.Logger(corekit.Nop))
+				l := core.NewLabel(core.LabelDescriptor(model.NewLabelDescriptor(
+					model.LabelName(name), model.LabelContributor(model.Contributor{Name: "verif", Email: "verif@example.com"}))))
+				return l.UploadDescriptor(context.Background(), b)
+			})
+		}
+		fired := false
+		for _, w := range g.Snapshot() {
+			if w.Err && !w.Landed {
+				fired = true
+			}
+		}
+		if fired && prev != target {
+			e.c.w.Op(fmt.Sprintf("setf r=%s n=%s res=%s now=%s", tr.Esc(repo), tr.Esc(name), res, now), "sound")
+			e.c.w.Count("set-with-failing-write")
+		}
+	}
 	for q := 0; q < 2; q++ {
 		victim := ref[r.Intn(len(ref))].Name
 		var vkey string
